@@ -86,6 +86,9 @@ class G:
             tail = [["n", r.choice(["index", "index0", "first", "last", "length", "rindex", "rindex0", "name", "size"])]]
             if r.chance(30):
                 tail = [["n", "parentloop"]] + tail
+        if r.chance(3):
+            head = ["n", "tablerowloop"]
+            tail = [["n", r.choice(["col", "col0", "col_first", "col_last", "row", "index", "length", "first", "last", "size"])]]
         # a bare ForLoop drop is never copied or printed (the model keeps it as a mapping)
         if head == ["n", "forloop"] and not tail:
             tail = [["n", "index"]]
@@ -144,7 +147,7 @@ class G:
         r = self.rng
         kinds = ["read"] * 5 + ["assign"] * 3 + ["capture", "incr", "decr", "text"]
         if depth < self.max_depth:
-            kinds += ["for"] * 2 + ["with"] * 2 + ["if", "capture"]
+            kinds += ["for"] * 2 + ["with"] * 2 + ["if", "capture", "tablerow"]
             if partials:
                 kinds += ["include"] * 2 + ["render"] * 2
             kinds += ["macro", "call", "call"]
@@ -175,6 +178,8 @@ class G:
             return [["for", var, var + "-" + path_label(it[1], it[2]), it, self.block(depth + 1, partials, 1, 3), self.block(depth + 1, partials, 0, 1)]]
         if k == "with":
             return [["with", self.kwargs(1, 3), self.block(depth + 1, partials, 1, 3)]]
+        if k == "tablerow":
+            return [["tablerow", self.name(), self.iterable(), self.block(depth + 1, partials, 1, 2)]]
         if k == "include":
             name = r.choice(partials)
             bind = None
@@ -228,7 +233,7 @@ def walk(nodes):
     for n in nodes:
         yield n
         t = n[0]
-        for sub in {"capture": [2], "if": [2, 3], "for": [4, 5], "with": [2], "macro": [3]}.get(t, []):
+        for sub in {"capture": [2], "if": [2, 3], "for": [4, 5], "with": [2], "macro": [3], "block": [2], "tablerow": [3]}.get(t, []):
             yield from walk(n[sub])
 
 
@@ -238,3 +243,112 @@ def kinds_of(prog):
         for n in walk(body):
             ks.add(n[0])
     return ks
+
+
+# ---- template inheritance: extends / block around the binding constructs ----------------------------------
+BLOCKS = ["b1", "b2", "b3"]
+
+
+def gen_inherit(rng):
+    """A leaf template that extends a base (optionally through a middle template); blocks hold reads, assigns, render /
+    call / include tags; the base assigns variables around its blocks.  The leaf is the main template or is itself
+    included / rendered.  `block.super` and `required` are not generated."""
+    g = G(rng, max_depth=3)
+    inner = ["q"]
+    partials = {"q": g.block(2, [], 1, 3) + [["out", ["path", ["n", "it"], []]], ["text", ";"]]}
+
+    def body(depth=1):
+        return g.block(depth, inner, 1, 3)
+
+    def wrap(nodes):
+        k = rng.below(6)
+        if k == 0:
+            return [["if", ["lit", True], nodes, []]]
+        if k == 1:
+            v = g.name()
+            return [["for", v, v + "-zz", ["path", ["n", "zz"], []], nodes, []]]
+        if k == 2:
+            return [["with", g.kwargs(1, 2), nodes]]
+        return nodes
+
+    # base: statements around blocks, some blocks nested in other constructs or in each other
+    base = []
+    names = rng.sample(BLOCKS, rng.range(1, 3))
+    for i, bn in enumerate(names):
+        base += g.block(1, inner, 0, 2)
+        blk = [["block", bn, body()]]
+        if i == 0 and len(names) > 1 and rng.chance(25):
+            blk = [["block", bn, body() + [["block", names[1], body()]]]]
+            names = [names[0]] + names[2:] if False else names
+            base += wrap(blk)
+            base += g.block(1, inner, 0, 1)
+            break
+        base += wrap(blk)
+    base += g.block(1, inner, 0, 2)
+    partials["base"] = base
+
+    def overrides(parent_blocks):
+        out = []
+        for bn in parent_blocks:
+            if rng.chance(70):
+                out.append(["block", bn, body()])
+        if rng.chance(10):
+            out.append(["block", "extra", body()])
+        return out
+
+    declared = [n[1] for n in find_blocks(base)]
+    parent = "base"
+    if rng.chance(40):
+        partials["mid"] = [["extends", "base"]] + overrides(declared) + ([["text", "MID;"]] if rng.chance(30) else [])
+        parent = "mid"
+    ext = [["extends", parent]]
+    if rng.chance(15):
+        ext = wrap(ext) if rng.chance(70) else [["capture", g.name(), ext + [["text", "C;"]]]]
+    leaf = g.block(1, inner, 0, 2) + ext + overrides(declared) + ([["text", "NEVER;"]] if rng.chance(50) else [])
+    # defects of the inheritance chain itself (errors)
+    k = rng.below(100)
+    if k < 3:
+        leaf = leaf + [["block", declared[0], []], ["block", declared[0], []]]
+    elif k < 6:
+        partials["base"] = [["extends", "mid" if "mid" in partials else "base"]] + base
+    elif k < 8:
+        leaf = [n if n[0] != "extends" else ["extends", "nope"] for n in leaf]
+    elif k < 10:
+        leaf = leaf + [["extends", parent]]
+    how = rng.below(10)
+    tail = []
+    for nme in rng.sample(NAMES, 2):
+        tail += [["out", ["path", ["n", nme], []]], ["text", ","]]
+    if how < 5:
+        main = leaf
+    else:
+        partials["leaf"] = leaf
+        if how < 7:
+            main = g.block(0, [], 0, 2) + [["include", "leaf", None, g.kwargs(0, 1)]] + tail
+        else:
+            bind = [rng.chance(50), g.iterable(), rng.choice([None, "it"])] if rng.chance(50) else None
+            main = g.block(0, [], 0, 2) + [["render", "leaf", bind, g.kwargs(0, 1)]] + tail
+    empty = rng.chance(20)
+    return {
+        "main": main,
+        "partials": partials,
+        "args": {} if empty else dict(g.layer(45), zz=[g.leaf()]),
+        "matter": {} if empty else g.layer(25),
+        "tglobals": {} if empty else g.layer(25),
+        "eglobals": {} if empty else g.layer(25),
+        "strict": rng.chance(8),
+        "sseq": False,
+        "sfl": False,
+        "depth": 30,
+        "async": rng.chance(30),
+    }
+
+
+def find_blocks(nodes):
+    out = []
+    for n in nodes:
+        if n[0] == "block":
+            out.append(n)
+        for sub in {"capture": [2], "if": [2, 3], "for": [4, 5], "with": [2], "macro": [3], "block": [2], "tablerow": [3]}.get(n[0], []):
+            out += find_blocks(n[sub])
+    return out
